@@ -111,6 +111,22 @@ func copyOK(in map[string][]string) map[string][]string {
 	return out
 }
 
+type proto struct{ delta uint; size uint }
+
+// protoWriteWitness: a received configuration value gets a field assigned (C09.K1).
+func protoWriteWitness(p proto) proto {
+	if p.delta == 0 {
+		p.delta = 7200
+	}
+	return p
+}
+
+// protoReadOK: reads the configuration and builds a fresh literal — must stay silent.
+func protoReadOK(p proto) proto {
+	q := proto{delta: p.delta, size: 1}
+	return q
+}
+
 // mapOrderWitness: result depends on map iteration order (C17.D1).
 func mapOrderWitness(m map[string]int) []string {
 	var out []string
